@@ -1,5 +1,8 @@
 import OtelVerif.Model.C04
+import OtelVerif.Gen.C04Config
 import OtelVerif.Lemmas.C04Term
+import OtelVerif.Lemmas.C04Drop
+import OtelVerif.Lemmas.C04Perm
 import OtelVerif.Lemmas.C04Pinned
 import OtelVerif.Lemmas.C04Bound
 import OtelVerif.Lemmas.C04BoundBytes
@@ -30,25 +33,29 @@ def optFlat {P β : Type} (flat : P → List β) (r : Option (Req P)) : List β 
   | some r => flat r.p
   | none => []
 
-theorem mergeSplit_perm_aux {P β : Type} (o : Ops P) (flat : P → List β) (hc : Conserves o flat) (max : Int)
+theorem mergeSplit_perm_aux {P β : Type} (o : Ops P) (flat : P → List β) (hc : Conserves o flat)
+    (hE : ∀ p, o.empty p = true → flat p = []) (max : Int)
     (r : Req P) (out : List (Req P)) (h : (if max == 0 then some [r] else split o max r) = some out) :
     (flatReqs flat out).Perm (flat r.p) := by
   split at h
   · injection h with h
     subst h
     rw [flatReqs_single]
-  · have := splitLoop_perm o flat hc max _ _ [] out h
+  · obtain ⟨out0, h0, rfl⟩ := split_some o max r out h
+    have := splitLoop_perm o flat hc max _ _ [] out0 h0
+    rw [dropEmptyLast_flat o flat hE]
     simpa [flatReqs] using this
 
-theorem mergeSplit_perm {P β : Type} (o : Ops P) (flat : P → List β) (hc : Conserves o flat) (max : Int)
+theorem mergeSplit_perm {P β : Type} (o : Ops P) (flat : P → List β) (hc : Conserves o flat)
+    (hE : ∀ p, o.empty p = true → flat p = []) (max : Int)
     (r1 : Req P) (r2 : Option (Req P)) (out : List (Req P)) (h : mergeSplit o max r1 r2 = some out) :
     (flatReqs flat out).Perm (flat r1.p ++ optFlat flat r2) := by
   cases r2 with
   | none =>
-    have := mergeSplit_perm_aux o flat hc max r1 out h
+    have := mergeSplit_perm_aux o flat hc hE max r1 out h
     simpa [optFlat] using this
   | some r2 =>
-    have := mergeSplit_perm_aux o flat hc max (mergeTo o r1 r2) out h
+    have := mergeSplit_perm_aux o flat hc hE max (mergeTo o r1 r2) out h
     simpa [optFlat, mergeTo, hc.append] using this
 
 /-- logs, traces, profiles: for every sizer, every limit, every pair of requests, whatever `MergeSplit` returns holds
@@ -56,14 +63,14 @@ exactly the records that came in, each with its resource, resource schema URL, s
 theorem C04_conserve (sz : Sizer) (max : Int) (r1 : Req (List Res)) (r2 : Option (Req (List Res))) (out : List (Req (List Res)))
     (h : mergeSplit (logsOps sz) max r1 r2 = some out) :
     (flatReqs flatten out).Perm (flatten r1.p ++ optFlat flatten r2) :=
-  mergeSplit_perm _ _ (logs_conserves sz) max r1 r2 out h
+  mergeSplit_perm _ _ (logs_conserves sz) (logs_empty_flat sz) max r1 r2 out h
 
 /-- metrics (repaired `extract*DataPoints`): every data point also keeps its metric's name, unit, description, type,
 temporality, monotonicity and metadata -/
 theorem C04_conserve_metrics (sz : Sizer) (max : Int) (r1 : Req (List MRes)) (r2 : Option (Req (List MRes)))
     (out : List (Req (List MRes))) (h : mergeSplit (metricsOps true sz) max r1 r2 = some out) :
     (flatReqs mflatten out).Perm (mflatten r1.p ++ optFlat mflatten r2) :=
-  mergeSplit_perm _ _ (metrics_conserves sz) max r1 r2 out h
+  mergeSplit_perm _ _ (metrics_conserves sz) (metrics_empty_flat true sz) max r1 r2 out h
 
 /-- the same statement for the pinned `extract*DataPoints` (`metricFragmentKeepsIdentity = false`) -/
 def C04_conserve_metrics_pinned_full : Prop :=
@@ -109,7 +116,11 @@ theorem C04_conserve_metrics_partial (sz : Sizer) (max : Int) (r1 : Req (List MR
     ∀ c ∈ flatReqs mflatten out, c ∈ mflatten r1.p ++ optFlat mflatten r2 ∨
       ∃ c' ∈ mflatten r1.p ++ optFlat mflatten r2, c = anon c' := by
   constructor
-  · have := mergeSplit_perm _ _ (metrics_wconserves false sz) max r1 r2 out h
+  · have hEw : ∀ p, (metricsOps false sz).empty p = true → wflatten p = [] := by
+      intro p hp
+      simp only [metricsOps, Bool.and_eq_true, List.isEmpty_iff] at hp
+      rw [hp.2]; rfl
+    have := mergeSplit_perm _ _ (metrics_wconserves false sz) hEw max r1 r2 out h
     have e1 : flatReqs wflatten out = (flatReqs mflatten out).map anon := by
       simp [flatReqs, wflatten, List.map_flatMap]
     have e2 : wflatten r1.p ++ optFlat wflatten r2 = (mflatten r1.p ++ optFlat mflatten r2).map anon := by
@@ -125,7 +136,9 @@ theorem C04_conserve_metrics_partial (sz : Sizer) (max : Int) (r1 : Req (List MR
       · injection hr with hr
         subst hr
         exact Or.inl (by simpa [flatReqs_single] using hc)
-      · have := splitLoop_allowed false sz max _ r [] out hr c hc
+      · obtain ⟨out0, h0, rfl⟩ := split_some _ max r out hr
+        rw [dropEmptyLast_flat _ mflatten (metrics_empty_flat false sz)] at hc
+        have := splitLoop_allowed false sz max _ r [] out0 h0 c hc
         simpa [flatReqs] using this
     cases r2 with
     | none => simpa [optFlat, Allowed] using key r1 h
@@ -152,11 +165,11 @@ theorem C04_conserve_metrics_checked_tree (sz : Sizer) (max : Int) (r1 : Req (Li
 
 /-- `split` (hence `MergeSplit`) ends for every request, limit and sizer: `nodes + 1` iterations always suffice -/
 theorem C04_terminates (sz : Sizer) (max : Int) (req : Req (List Res)) : (split (logsOps sz) max req).isSome = true :=
-  splitLoop_isSome _ (logs_shrinks sz) max _ req [] (Nat.lt_succ_self _)
+  split_isSome _ max req (splitLoop_isSome _ (logs_shrinks sz) max _ req [] (Nat.lt_succ_self _))
 
 theorem C04_terminates_metrics (keep : Bool) (sz : Sizer) (max : Int) (req : Req (List MRes)) :
     (split (metricsOps keep sz) max req).isSome = true :=
-  splitLoop_isSome _ (metrics_shrinks keep sz) max _ req [] (Nat.lt_succ_self _)
+  split_isSome _ max req (splitLoop_isSome _ (metrics_shrinks keep sz) max _ req [] (Nat.lt_succ_self _))
 
 theorem C04_mergeSplit_total (sz : Sizer) (max : Int) (r1 : Req (List Res)) (r2 : Option (Req (List Res))) :
     (mergeSplit (logsOps sz) max r1 r2).isSome = true := by
@@ -187,9 +200,12 @@ theorem mergeSplit_exact {P : Type} (o : Ops P) (hs : SizeExact o) (max : Int) (
     simp only [List.mem_singleton] at hr
     subst hr
     cases r2 <;> exact hm
-  · cases r2 with
-    | none => exact splitLoop_exact o hs max _ _ [] out h hm (by simp)
-    | some r2 => exact splitLoop_exact o hs max _ _ [] out h hm (by simp)
+  · obtain ⟨out0, h0, rfl⟩ := split_some o max _ out h
+    intro r hr
+    have hr0 := dropEmptyLast_mem o out0 r hr
+    cases r2 with
+    | none => exact splitLoop_exact o hs max _ _ [] out0 h0 hm (by simp) r hr0
+    | some r2 => exact splitLoop_exact o hs max _ _ [] out0 h0 hm (by simp) r hr0
 
 /-- **cachedSize** (logs, traces, profiles; items and bytes sizer): the memoised size of every request `MergeSplit`
 returns is unset (`-1`) or exactly the size of its payload — `removedSize` is exactly what the source lost, through every
@@ -223,9 +239,12 @@ theorem mergeSplit_bound {P : Type} (o : Ops P) (heavy : P → Nat) (hs : SizeEx
     have : max ≠ 0 := by omega
     simpa using this
   simp only [mergeSplit, hne, Bool.false_eq_true, if_false] at h
+  obtain ⟨out0, h0, rfl⟩ := split_some o max _ out h
+  intro r hr
+  have hr0 := dropEmptyLast_mem o out0 r hr
   cases r2 with
-  | none => exact splitLoop_bound o heavy hs hb max (by omega) _ _ [] out h hm (by simp)
-  | some r2 => exact splitLoop_bound o heavy hs hb max (by omega) _ _ [] out h hm (by simp)
+  | none => exact splitLoop_bound o heavy hs hb max (by omega) _ _ [] out0 h0 hm (by simp) r hr0
+  | some r2 => exact splitLoop_bound o heavy hs hb max (by omega) _ _ [] out0 h0 hm (by simp) r hr0
 
 /-- **size bound, items sizer** (logs, traces, profiles): with `max_size > 0`, every request `MergeSplit` returns has at
 most `max_size` items (weight: 1 per log record / span, the number of samples per profile) unless it holds at most one
@@ -271,6 +290,37 @@ example :
       (fun out => out.map (fun r => (flatten r.p).map (·.2.2.id))) = some [[10], [11]] := by decide
 
 
+/-- **`MergeSplit` never returns an empty list** (any signal, sizer, limit, either value of the regenerated flag
+`splitDropsEmptyRemainder`): `Consume` treats `len(reqList) == 0` as "nothing to do"; the emptied receiver is only left out
+when other results exist -/
+theorem C04_mergeSplit_nonempty {P : Type} (o : Ops P) (max : Int) (r1 : Req P) (r2 : Option (Req P)) (out : List (Req P))
+    (h : mergeSplit o max r1 r2 = some out) : out ≠ [] := by
+  simp only [mergeSplit] at h
+  split at h
+  · injection h with h; subst h; simp
+  · obtain ⟨out0, h0, rfl⟩ := split_some o max _ out h
+    exact dropEmptyLast_ne_nil o out0 (splitLoop_ne_nil o max _ _ _ out0 h0)
+
+/-- on the tree this run checks (`splitDropsEmptyRemainder` regenerated from the four `split()`): when `split()` produced other
+results and the receiver is left without any resource entry, the receiver is NOT among the results - no request without data
+is handed to the batcher (the defect repaired by `2779f9106`: such a request was exported as an empty batch and its outcome
+reported to the incoming request).  Non-vacuity: one 500-byte record, bytes sizer, max 100 → exactly one result. -/
+theorem C04_empty_receiver_not_returned (sz : Sizer) (max : Int) (r : Req (List Res)) (rs : List (Req (List Res)))
+    (l : Req (List Res)) (hflag : C04Shape.splitDropsEmptyRemainder = true)
+    (hraw : splitRaw (logsOps sz) max r = some (rs ++ [l])) (hne : rs ≠ []) (hl : l.p = []) :
+    split (logsOps sz) max r = some rs := by
+  simp only [split, hraw, Option.map_some, dropEmptyLast, List.getLast?_append, List.getLast?_singleton, Option.some_or]
+  simp [logsOps, hflag, hl, hne]
+
+/-- non-vacuity of `C04_empty_receiver_not_returned` (the e2e witness): two records, each larger than `max_size = 100` bytes
+with its context: the loop alone (`splitRaw`) yields the two records and then the emptied receiver, `split` only the two -/
+example :
+    (splitRaw (logsOps ⟨true⟩) 100 { p := [⟨⟨1, 0, 11⟩, [⟨⟨2, 0, 0, 0, 6⟩, [⟨10, 515, 1⟩, ⟨11, 215, 1⟩]⟩]⟩] }).map
+      (fun out => out.map (fun r => (flatten r.p).map (·.2.2.id))) = some [[10], [11], []] ∧
+    (split (logsOps ⟨true⟩) 100 { p := [⟨⟨1, 0, 11⟩, [⟨⟨2, 0, 0, 0, 6⟩, [⟨10, 515, 1⟩, ⟨11, 215, 1⟩]⟩]⟩] }).map
+      (fun out => out.map (fun r => (flatten r.p).map (·.2.2.id))) =
+        some (if C04Shape.splitDropsEmptyRemainder then [[10], [11]] else [[10], [11], []]) := by decide
+
 /-! ## the bridge between `MergeSplit` and the contract (`pack`) the batcher theorems are stated over
 
 `default_batcher.go` relies on three facts about `MergeSplit`: the results list the items in arrival order with the pending
@@ -280,12 +330,15 @@ theorems below prove the first and third fact of the model `mergeSplit` (which i
 differential); the second is an object-identity fact checked on every `MergeSplit` call of the harness (`last_is_receiver`),
 and the `fifo` oracle re-checks the order on the real output. -/
 
-theorem mergeSplit_fifo_aux {P β : Type} (o : Ops P) (flat : P → List β) (hc : FifoOps o flat) (max : Int)
+theorem mergeSplit_fifo_aux {P β : Type} (o : Ops P) (flat : P → List β) (hc : FifoOps o flat)
+    (hE : ∀ p, o.empty p = true → flat p = []) (max : Int)
     (r : Req P) (out : List (Req P)) (h : (if max == 0 then some [r] else split o max r) = some out) :
     flatReqs flat out = flat r.p := by
   split at h
   · injection h with h; subst h; rw [flatReqs_single]
-  · have := splitLoop_fifo o flat hc max _ _ [] out h
+  · obtain ⟨out0, h0, rfl⟩ := split_some o max r out h
+    have := splitLoop_fifo o flat hc max _ _ [] out0 h0
+    rw [dropEmptyLast_flat o flat hE]
     simpa [flatReqs] using this
 
 /-- **`MergeSplit` is FIFO** (logs, traces, profiles; items and bytes): the items of the returned requests, concatenated in
@@ -295,10 +348,10 @@ theorem C04_mergeSplit_fifo (sz : Sizer) (max : Int) (r1 : Req (List Res)) (r2 :
     flatReqs flatten out = flatten r1.p ++ optFlat flatten r2 := by
   cases r2 with
   | none =>
-    have := mergeSplit_fifo_aux _ flatten (logs_fifoOps sz) max r1 out h
+    have := mergeSplit_fifo_aux _ flatten (logs_fifoOps sz) (logs_empty_flat sz) max r1 out h
     simpa [optFlat] using this
   | some r2 =>
-    have := mergeSplit_fifo_aux _ flatten (logs_fifoOps sz) max (mergeTo (logsOps sz) r1 r2) out h
+    have := mergeSplit_fifo_aux _ flatten (logs_fifoOps sz) (logs_empty_flat sz) max (mergeTo (logsOps sz) r1 r2) out h
     simpa [optFlat, mergeTo, logsOps, flatten] using this
 
 /-- **the criterion of `Consume`**: the first result is a prefix of "pending batch, then new request"; it has no more items
@@ -555,5 +608,170 @@ failure: callbacks fire once each, request 2 reports the failure after its last 
 example :
     (brun ⟨10, 12⟩ {} [.consume 1 [(1, 4)], .consume 2 [(2, 5), (2, 9), (2, 9)], .finish 1 {}, .finish 0 { plain := true },
       .flush, .finish 2 {}]).2 = [(1, { plain := true }), (2, { plain := true })] := by decide
+
+
+section ConfigGlue
+open OtelVerif.C04.Config
+
+/-! ## Configuration glue: validation → the batcher that is built (round 2, second session)
+
+`Gen/C04Config.lean` holds the three `Validate` functions of `queuebatch/config.go` and `internal/queue_sender.go` as regenerated
+rule lists, the struct field lists and the default configurations; `Model/C04Config.lean` the interpreter, `newQueueBatchConfig`
+and `newQueueBatch`.  The theorems below are about the REGENERATED rules: a changed comparison re-checks them. -/
+
+/-- tie obligation over `Gen/C04Config.lean`: every field the regenerated validation rules read is one the environments answer
+for, and every field the environments answer for is a field of the Go struct (regenerated field lists) -/
+theorem C04_config_rules_fields_known :
+    rulesKnown batchEnvFields C04Config.batchRules = true ∧ rulesKnown queueEnvFields C04Config.queueRules = true ∧
+    rulesKnown legacyEnvFields C04Config.legacyRules = true ∧
+    batchEnvFields.all (fun f => (C04Config.batchFields.map (·.1)).contains f) = true ∧
+    queueEnvFields.all (fun f => (C04Config.queueFields.map (·.1)).contains f) = true ∧
+    legacyEnvFields.all (fun f => (C04Config.legacyFields.map (·.1)).contains f) = true := by decide
+
+/-- what the batcher theorems need of a `BatchConfig` -/
+def BatchOk (b : BatchRaw) : Prop := 0 < b.flushTimeout ∧ 0 ≤ b.min ∧ 0 ≤ b.max ∧ (b.max = 0 ∨ b.min ≤ b.max)
+
+theorem C04_batch_config_accepted (b : BatchRaw) (h : runRules (BatchRaw.env (some b)) C04Config.batchRules = true) :
+    BatchOk b := by
+  simp [C04Config.batchRules, runRules, VCond.eval, VExpr.eval, VOp.eval, BatchRaw.env] at h
+  unfold BatchOk
+  omega
+
+theorem C04_queue_config_accepted (q : QRaw) (he : q.enabled = true) (h : runRules q.env C04Config.queueRules = true) :
+    0 < q.numConsumers ∧ 0 < q.queueSize ∧ (q.storage = true → q.waitForResult = false ∧ q.sizer = sizerRequests) ∧
+    (q.batch.isSome = true → q.sizer = sizerItems ∨ q.sizer = sizerBytes) := by
+  rcases q with ⟨en, w, sz, qs, boo, st, nc, b⟩
+  simp only [] at he
+  subst he
+  simp [C04Config.queueRules, runRules, VCond.eval, VExpr.eval, VOp.eval, QRaw.env, b2i] at h
+  obtain ⟨h1, h2, h3, h4, h5⟩ := h
+  refine ⟨h1, h2, ?_, ?_⟩
+  · intro hs
+    simp only [] at hs
+    subst hs
+    simp at h3 h4
+    exact ⟨h3, h4⟩
+  · intro hb
+    cases b with
+    | none => simp at hb
+    | some b => simpa [sizerItems, sizerBytes] using h5
+
+theorem C04_legacy_config_accepted (l : LegacyRaw) (he : l.enabled = true) (h : runRules l.env C04Config.legacyRules = true) :
+    l.sizer = sizerItems ∧ BatchOk ⟨l.flushTimeout, l.min, l.max⟩ := by
+  simp [C04Config.legacyRules, runRules, VCond.eval, VExpr.eval, VOp.eval, LegacyRaw.env, b2i, he] at h
+  simp only [sizerItems, BatchOk]
+  omega
+
+/-- what component validation (`xconfmap.Validate`: every `Validate` reachable from the exporter's configuration) accepts -/
+def accepted (q : QRaw) (l : LegacyRaw) : Bool :=
+  runRules q.env C04Config.queueRules && runRules (BatchRaw.env q.batch) C04Config.batchRules &&
+    runRules l.env C04Config.legacyRules
+
+/-- **every accepted configuration builds a batcher the batcher theorems apply to**: for every queue configuration and legacy
+batcher configuration accepted by validation (queue or legacy batching enabled - otherwise no queue sender exists),
+`NewQueueSender` → `newQueueBatchConfig` → `newQueueBatch` never fails on the sizer and builds either the disabled
+batcher or a default batcher whose sizer type is items or bytes, with one worker, `flush_timeout > 0`,
+`0 ≤ min_size`, `0 ≤ max_size` and `max_size = 0 ∨ min_size ≤ max_size` - the hypothesis of `C04_done_covers_all_parts`
+/ `C04_done_only_own_parts` and `0 < max` of the size-bound theorems whenever a maximum is set. -/
+theorem C04_accepted_config_builds_valid_batcher (q : QRaw) (l : LegacyRaw) (maxInt numCPU : Int)
+    (hen : q.enabled = true ∨ l.enabled = true) (hacc : accepted q l = true) :
+    (newQueueSender allSizers q l maxInt numCPU = .unsupportedSizer ∧ q.sizer ∉ allSizers) ∨
+    (∃ n, newQueueSender allSizers q l maxInt numCPU = .disabled n ∧ 0 < n) ∨
+    (∃ sz b, newQueueSender allSizers q l maxInt numCPU = .dflt sz b 1 ∧ (sz = sizerItems ∨ sz = sizerBytes) ∧ BatchOk b) := by
+  simp only [accepted, Bool.and_eq_true] at hacc
+  obtain ⟨⟨hq, hb⟩, hl⟩ := hacc
+  cases hle : l.enabled with
+  | true =>
+    have hL := C04_legacy_config_accepted l hle hl
+    cases hqe : q.enabled with
+    | true =>
+      by_cases hs : q.sizer ∈ allSizers
+      · right; right
+        refine ⟨sizerItems, ⟨l.flushTimeout, l.min, l.max⟩, ?_, Or.inl rfl, hL.2⟩
+        simp [newQueueSender, newQueueBatchConfig, newQueueBatch, hle, hqe, hs]
+      · left
+        refine ⟨?_, hs⟩
+        simp [newQueueSender, newQueueBatchConfig, newQueueBatch, hle, hqe, hs]
+    | false =>
+      right; right
+      refine ⟨sizerItems, ⟨l.flushTimeout, l.min, l.max⟩, ?_, Or.inl rfl, hL.2⟩
+      simp [newQueueSender, newQueueBatchConfig, newQueueBatch, hle, hqe, allSizers]
+  | false =>
+    have hqe : q.enabled = true := by simpa [hle] using hen
+    have hQ := C04_queue_config_accepted q hqe hq
+    by_cases hs : q.sizer ∈ allSizers
+    · right
+      cases hqb : q.batch with
+      | none =>
+        left
+        exact ⟨q.numConsumers, by simp [newQueueSender, newQueueBatchConfig, newQueueBatch, hle, hs, hqb], hQ.1⟩
+      | some b =>
+        right
+        rw [hqb] at hb
+        refine ⟨q.sizer, b, by simp [newQueueSender, newQueueBatchConfig, newQueueBatch, hle, hs, hqb],
+          hQ.2.2.2 (by simp [hqb]), C04_batch_config_accepted b hb⟩
+    · left
+      refine ⟨?_, hs⟩
+      simp [newQueueSender, newQueueBatchConfig, newQueueBatch, hle, hs]
+
+/-- the `BCfg` of the batcher model for an accepted `BatchConfig` -/
+def toBCfg (b : BatchRaw) : BCfg := ⟨b.min.toNat, b.max.toNat⟩
+
+theorem batchOk_bcfg (b : BatchRaw) (h : BatchOk b) : (toBCfg b).max = 0 ∨ (toBCfg b).min ≤ (toBCfg b).max := by
+  unfold BatchOk at h
+  simp only [toBCfg]
+  omega
+
+/-- the default configurations (regenerated struct literals) are accepted, and `NewDefaultQueueConfig` has no batch -/
+theorem C04_default_configs_accepted :
+    accepted (QRaw.ofFields C04Config.defaultQueue) (LegacyRaw.ofFields C04Config.defaultLegacy) = true ∧
+    lookupField C04Config.defaultQueue "Batch" = 0 ∧
+    newQueueSender allSizers (QRaw.ofFields C04Config.defaultQueue) (LegacyRaw.ofFields C04Config.defaultLegacy) 1 1
+      = .dflt sizerItems ⟨200000000, 8192, 0⟩ 1 := by decide
+
+
+/-- **the Done clause for every ACCEPTED configuration** (hypothesis `max = 0 ∨ min ≤ max` of `C04_done_covers_all_parts` /
+`C04_done_only_own_parts` discharged from validation): whatever default batcher `NewQueueSender` builds from a configuration
+accepted by validation, over every history every pending / in-flight batch containing an item of request r holds a Done of r,
+once Done(r) fired no batch contains an item of r, and every Done a batch holds belongs to a request with a unit in it. -/
+theorem C04_done_parts_accepted_config (q : QRaw) (l : LegacyRaw) (maxInt numCPU : Int)
+    (hen : q.enabled = true ∨ l.enabled = true) (hacc : accepted q l = true) (sz : Int) (b : BatchRaw) (w : Int)
+    (hbuilt : newQueueSender allSizers q l maxInt numCPU = .dflt sz b w)
+    (ls : List BLabel) (hnd : (consumedIds ls).Nodup) (ht : Tagged ls) (htn : TaggedNE ls) :
+    (∀ s ∈ (brun (toBCfg b) {} ls).1.slots, ∀ u ∈ s.1, 0 < u.2 → ∃ d ∈ s.2, tgt (brun (toBCfg b) {} ls).1.refs d = some u.1) ∧
+    (∀ id, firedCount (brun (toBCfg b) {} ls).2 id = 1 → ∀ s ∈ (brun (toBCfg b) {} ls).1.slots, ∀ u ∈ s.1, 0 < u.2 → u.1 ≠ id) ∧
+    (∀ s ∈ (brun (toBCfg b) {} ls).1.slots, ∀ d ∈ s.2, ∀ id, tgt (brun (toBCfg b) {} ls).1.refs d = some id → ∃ u ∈ s.1, u.1 = id) := by
+  have hok : BatchOk b := by
+    rcases C04_accepted_config_builds_valid_batcher q l maxInt numCPU hen hacc with h | ⟨n, h, _⟩ | ⟨sz', b', h, _, hb'⟩
+    · rw [h.1] at hbuilt; cases hbuilt
+    · rw [h] at hbuilt; cases hbuilt
+    · rw [h] at hbuilt; cases hbuilt; exact hb'
+  have hv := batchOk_bcfg b hok
+  have h1 := C04_done_covers_all_parts (toBCfg b) hv ls hnd ht
+  exact ⟨h1.1, h1.2, C04_done_only_own_parts (toBCfg b) hv ls hnd htn⟩
+
+/-- non-vacuity: `sending_queue` enabled with `batch: {flush_timeout: 1s, min_size: 5, max_size: 10}` and the bytes sizer is
+accepted and builds the default batcher with exactly these limits; a configuration with `max_size < min_size` is not -/
+example :
+    accepted ⟨true, false, sizerBytes, 1000, false, false, 10, some ⟨1000000000, 5, 10⟩⟩ ⟨false, 0, sizerOther, 0, 0⟩ = true ∧
+    newQueueSender allSizers ⟨true, false, sizerBytes, 1000, false, false, 10, some ⟨1000000000, 5, 10⟩⟩ ⟨false, 0, sizerOther, 0, 0⟩ 9 8
+      = .dflt sizerBytes ⟨1000000000, 5, 10⟩ 1 ∧
+    accepted ⟨true, false, sizerBytes, 1000, false, false, 10, some ⟨1000000000, 5, 4⟩⟩ ⟨false, 0, sizerOther, 0, 0⟩ = false := by decide
+
+/-- the driver's configuration oracle is sound: it accepts a built default batcher only if it meets the hypotheses the batcher
+theorems take (`BatchOk`, one worker, items or bytes sizer) -/
+theorem C04_config_check_sound (sz : Int) (b : BatchRaw) (w : Int) (h : builtOk (.dflt sz b w) = true) :
+    (sz = sizerItems ∨ sz = sizerBytes) ∧ w = 1 ∧ BatchOk b := by
+  simp [builtOk] at h
+  simp only [BatchOk]
+  omega
+
+end ConfigGlue
+
+/-- **the conservation search oracle decides the clause exactly**: the drivers (`c04-ms`: `conserve`; C17: `exactly_once`) judge
+the IMPLEMENTATION's output with `permB out src`; it is `true` iff the flattening of what left is a permutation of what entered
+(items with their full context) - sound (no false `ok`) and complete (no false alarm) -/
+theorem C04_oracle_conserve_iff {β : Type} [DecidableEq β] (out src : List β) : permB out src = true ↔ out.Perm src :=
+  ⟨permB_sound out src, permB_complete out src⟩
 
 end OtelVerif.C04
